@@ -10,19 +10,28 @@
 (***************************************************************************)
 EXTENDS Integers, Sequences
 
-InList(order, k) == \E i \in 1..Len(order) : order[i] = k
+\* @type: (Seq(Int), Int) => Bool;
+InList(order, k) == \E i \in DOMAIN order : order[i] = k
+\* @type: (Seq(Int), Int) => Seq(Int);
 Without(order, k) == SelectSeq(order, LAMBDA x : x # k)
+\* @type: (Seq(Int), Int) => Seq(Int);
 MoveToFront(order, k) == <<k>> \o Without(order, k)
 \* result order after Get(k); a miss changes nothing
+\* @type: (Seq(Int), Int) => Seq(Int);
 GetOrder(order, k) == IF InList(order, k) THEN MoveToFront(order, k) ELSE order
+\* @type: (Seq(Int), Int) => Bool;
 GetHit(order, k) == InList(order, k)
 \* result order after Put(k) with the given capacity
+\* @type: (Seq(Int), Int, Int) => Seq(Int);
 PutOrder(order, k, cap) ==
   IF InList(order, k) THEN MoveToFront(order, k)
   ELSE IF Len(order) = cap THEN <<k>> \o SubSeq(order, 1, Len(order) - 1)     \* evict the least recently used
   ELSE <<k>> \o order
+\* @type: (Seq(Int), Int, Int) => Int;
 PutVictim(order, k, cap) == IF ~InList(order, k) /\ Len(order) = cap THEN order[Len(order)] ELSE -1
 
+\* @type: (Seq(Int), Int) => Bool;
 Bounded(order, cap) == Len(order) <= cap
-NoDup(order) == \A i, j \in 1..Len(order) : order[i] = order[j] => i = j
+\* @type: (Seq(Int)) => Bool;
+NoDup(order) == \A i, j \in DOMAIN order : order[i] = order[j] => i = j
 =============================================================================
